@@ -156,8 +156,12 @@ class GroupByMux(Spawner):
     frees_on_completed = True
 
     def __init__(self):
-        self.loop_contracts = {('rxsci.operators.group_by.group_by_mux._group_by.on_subscribe.on_next', 0):
-                               InvLoop(self.loop_inv, modifies=('trace', 'locals'), lemmas=self.loop_lemmas)}
+        def iterates_the_map(fn, node):
+            import ast
+            return fn.startswith('rxsci.operators.group_by.') and isinstance(node, ast.For) and isinstance(node.iter, ast.Call) and \
+                isinstance(node.iter.func, ast.Attribute) and node.iter.func.attr == 'iterate_map'
+        # the completion loop, wherever it lives (on_next itself or a local helper shared with the error branch)
+        self.loop_contracts = {('match', iterates_the_map): InvLoop(self.loop_inv, modifies=('trace', 'locals'), lemmas=self.loop_lemmas)}
 
     def configs(self):
         yield {'name': 'key_mapper', 'args': [UserFn('key_mapper')], 'kws': {}, 'symbols': {}}
